@@ -102,3 +102,44 @@ func noFault(t *testing.T, what string, f func()) {
 }
 '''
 GUARD_IMPORTS = 'import ("testing"; "syscall"; "runtime"; "runtime/debug"; "strings")'
+
+
+def aff_data(rng, name, n, k=3, extra=()):
+    """n data bytes: concrete (seeded) except up to k affine-symbolic ones at first/middle/last (+extra) positions"""
+    cells = [rng.randrange(256) for _ in range(n)]
+    pos = sorted(set([p for p in ([0, n // 2, n - 1] + list(extra)) if 0 <= p < n]))[:max(k, 0)]
+    for p in pos:
+        cells[p] = asmsym.Aff.byte('%s_%d' % (name, p))
+    return cells, pos
+
+
+def concretize(cells, model):
+    """concrete bytes of a cell list under a z3 model of the byte variables (default 0)"""
+    out = []
+    for c in cells:
+        if isinstance(c, int):
+            out.append(c)
+        else:
+            t = asmsym.bv(c, 8)
+            v = model.eval(t, model_completion=True) if model is not None else z3.simplify(z3.substitute(t, *[(asmsym.bitvar(n), z3.BitVecVal(0, 8)) for n in asmsym.BITVARS]))
+            out.append(v.as_long() if z3.is_bv_value(v) else 0)
+    return out
+
+
+def cells_differ_query(got, want):
+    """z3 condition 'some byte differs' (None if structurally identical)"""
+    neq = []
+    for g, w in zip(got, want):
+        if isinstance(g, int) and isinstance(w, int):
+            if g != w:
+                return z3.BoolVal(True)
+            continue
+        # the implementation-derived and the specification-derived byte are both handed to the solver, also when
+        # their canonical affine forms already coincide
+        neq.append(asmsym.bv(g, 8) != asmsym.bv(w, 8))
+    if len(got) != len(want):
+        return z3.BoolVal(True)
+    return z3.Or(*neq) if neq else None
+
+
+KEYS = [STD_KEY, [0] * 16, [0xff] * 16]
